@@ -757,6 +757,26 @@ var ufDecls = map[string]*UFDecl{}
 
 func UFApp(name string, res *Sort, args ...*Term) *Term {
 	name = sanitize(name)
+	sig := res.String()
+	for _, a := range args {
+		sig += "," + a.S.String()
+	}
+	// the same Go function is a different SMT function per float mode (its sorts differ): one declaration per signature
+	base := name
+	for n := 1; ; n++ {
+		d, ok := ufDecls[name]
+		if !ok {
+			break
+		}
+		dsig := d.Res.String()
+		for _, a := range d.Args {
+			dsig += "," + a.String()
+		}
+		if dsig == sig {
+			break
+		}
+		name = fmt.Sprintf("%s__v%d", base, n)
+	}
 	d, ok := ufDecls[name]
 	if !ok {
 		d = &UFDecl{Name: name, Res: res}
@@ -764,15 +784,6 @@ func UFApp(name string, res *Sort, args ...*Term) *Term {
 			d.Args = append(d.Args, a.S)
 		}
 		ufDecls[name] = d
-	} else {
-		if len(d.Args) != len(args) || d.Res.String() != res.String() {
-			panic("UF redeclared with different signature: " + name)
-		}
-		for i, a := range args {
-			if d.Args[i].String() != a.S.String() {
-				panic("UF arg sort mismatch: " + name)
-			}
-		}
 	}
 	if len(args) == 0 {
 		// nullary UF = constant
